@@ -234,7 +234,7 @@ class Impl:
         st = self.store
         try:
             if k == "mk":
-                o = model.Submodel(op[1], id_short=f"v{op[2]}")
+                o = model.Submodel(op[1], [model.Property("p", model.datatypes.Int, 0)], id_short=f"v{op[2]}")
                 return ["handle", self.handle_of(o)]
             if k == "ext_put" or k == "ext_delete":
                 self.ext(op)
@@ -271,7 +271,13 @@ class Impl:
                 st.add(o)
                 return ["unit"]
             if k == "commit":
-                o.commit()
+                # committing a contained element commits the document of the stored object it belongs to: every other
+                # commit goes through the child (same meaning, another entry point)
+                child = o.get_referable("p") if len(o.submodel_element) else None
+                if child is not None and (o.id_short or "v0")[-1] in "13579":
+                    child.commit()
+                else:
+                    o.commit()
                 return ["unit"]
             if k == "update":
                 o.update()
